@@ -44,6 +44,10 @@ def main(argv: list[str] | None = None) -> int:
 
             summary, problems = selftest.collect(prop)
             rep.analysed["selftest"] = summary
+            vsum, vprob = selftest.whole_tree_variants(prop, rep.obs)
+            rep.analysed["whole-tree benign variants"] = vsum
+            problems = list(problems) + vprob
+            print(f"VARIANTS {prop} " + "; ".join(f"{k}: {v}" for k, v in vsum.items()))
             print(f"SELFTEST {prop} fired {summary.get('breaking_fired', '0/0')}, silent {summary.get('benign_silent', '0/0')} ({summary.get('variants', 0)} scratch-copy variants)")
         code = rep.finish(repo)
         if problems and code == 0:
